@@ -10,6 +10,7 @@ import (
 	"math/bits"
 	"sync"
 	"sync/atomic"
+	"unsafe"
 
 	"golang.org/x/tools/go/ssa"
 	"golang.org/x/tools/go/types/typeutil"
@@ -243,7 +244,11 @@ func valHash(v Value) uint64 {
 		if x.Fn == nil {
 			return 6
 		}
-		return mix(6, strHash(x.Fn.String()))
+		h := mix(6, uint64(uintptr(unsafe.Pointer(x.Fn))))
+		for i, f := range x.Free {
+			h ^= mix(uint64(i)+21, valHash(f))
+		}
+		return h
 	case Agg:
 		h := uint64(9)
 		for i, c := range x {
@@ -292,7 +297,15 @@ func valEq(a, b Value) bool {
 		return types.Identical(x.T, y.T) && valEq(x.V, y.V)
 	case Func:
 		y, ok := b.(Func)
-		return ok && x.Fn == y.Fn && len(x.Free) == len(y.Free)
+		if !ok || x.Fn != y.Fn || len(x.Free) != len(y.Free) {
+			return false
+		}
+		for i := range x.Free {
+			if !valEq(x.Free[i], y.Free[i]) {
+				return false
+			}
+		}
+		return true
 	case Agg:
 		y, ok := b.(Agg)
 		if !ok || len(x) != len(y) {
